@@ -135,7 +135,7 @@ UPDATE = {
     "PDPEnv": {"available": {"available", "action"}, "to_deliver": {"to_deliver", "action"}, "current_node": {"action"}},
     "MTSPEnv": {"agent_idx": {"agent_idx", "action"}, "action_mask": {"action_mask", "action", "agent_idx", "num_agents"}, "current_node": {"action"}},
     "MDCPDPEnv": {"available": {"available", "action"}, "to_deliver": {"to_deliver", "action"}, "current_carry": {"current_carry", "action"},
-                  "current_depot": {"current_depot", "action", "available"}, "current_node": {"action"}},
+                  "current_depot": {"current_depot", "action"}, "current_node": {"action"}},
     "MTVRPEnv": {"current_time": {"current_time", "locs", "current_node", "action", "speed", "time_windows", "service_time"},
                  "current_route_length": {"current_route_length", "locs", "current_node", "action"},
                  "used_capacity_linehaul": {"used_capacity_linehaul", "demand_linehaul", "action"},
